@@ -36,6 +36,13 @@
      StatsLaw                    num_updates = length of the history, CHOICE counts sum to total
      FileNameInjective / FileNameFunctional   names of distinct scalar values differ; the name depends
                                  on value and int/float kind only (not on the numpy width)
+     FinePoolOk + req (rel)      groups of scalars that differ only far down (tiny magnitudes, adjacent floats,
+                                 1e-13-scale differences, last digits of large values): members are pairwise
+                                 different numbers (exact); required of the implementation: names deterministic
+                                 and pairwise distinct, every variation saved through ONE template loads back
+                                 as what was saved into it
+   Every scalar FIELD also takes its falsy-but-valid values (current_rep 0, runned_reps 0 / [0,0] / [], value 0 /
+   0.0 / "" / None / [] / empty set, result name "", original_filename None / "", unpack index 0).
    Pickle is the identity on this universe at model level; the harness checks it on the real files.
 
    Deviations of the code as found (fields of Dev, all FALSE = intended design):
@@ -51,7 +58,7 @@ EXTENDS Integers, Sequences, FiniteSets, TLC, Emit, Rat
 
 CONSTANTS Dev,      \* [flag name |-> BOOLEAN]   deviations of the code
           Hyp,      \* [flag name |-> BOOLEAN]   hypothetical regressions (non-vacuity runs)
-          Family,   \* "value" | "params" | "result" | "results" | "fname"
+          Family,   \* "value" | "params" | "result" | "results" | "fields" | "fname"
           Tier,     \* "quick" | "thorough"
           Part, NParts    \* this TLC process handles the cases with index % NParts = Part
 
